@@ -1,5 +1,5 @@
-"""prototype generators: contexts, import restyling, layouts (throwaway)"""
-import ast, textwrap, re
+"""generators: contexts, import restyling, layouts"""
+import ast, collections, textwrap, re
 import libcst as cst
 
 def split_head(src):
@@ -20,6 +20,17 @@ def ctx(src,kind):
     if kind=="async": return head+"async def wrapper_fn(param_a=None):\n"+ind(body)
     if kind=="method": return head+"class Wrapper:\n    attr = 1\n\n    def method(self, param_a=None):\n"+ind(body,2)
     if kind=="nested": return head+"def wrapper_fn(flag=True):\n    try:\n        if flag:\n"+ind(body,3)+"    finally:\n        pass\n"
+    if kind=="closure":
+        # every name the body assigns at its top level is read ONLY-or-also from a nested function: a binding that looks unused in its own scope is still in use
+        try: t=ast.parse(body)
+        except SyntaxError: return None
+        names=[]
+        for n in t.body:
+            tg=n.targets if isinstance(n,ast.Assign) else ([n.target] if isinstance(n,(ast.AnnAssign,ast.AugAssign)) and getattr(n,"value",None) is not None else [])
+            for x in tg:
+                if isinstance(x,ast.Name) and x.id not in names: names.append(x.id)
+        if not names: return None
+        return head+"def wrapper_fn(param_a=None):\n"+ind(body)+"    def vf_inner():\n        return ("+", ".join(names[:6])+",)\n    return vf_inner\n"
     if kind=="prelude": return head+"".join(f"CONST_{i} = {i}\n" for i in range(7))+"\n"+body
     raise ValueError(kind)
 
@@ -178,6 +189,34 @@ def semicolon_joined(src):
     except SyntaxError: return None
     return out
 
+def dataflow_chain(src):
+    """in every block: the first single-line expression statement E that is followed by another simple statement line becomes `vf_dK = (E)` and the
+    next line starts with `vf_dK; ` - consecutive statements with a data dependency, the second sharing its line with what follows"""
+    try: tree = ast.parse(src)
+    except SyntaxError: return None
+    lines = src.splitlines(keepends=True); k = 0
+    per_line = collections.Counter(n.lineno for n in ast.walk(tree) if isinstance(n, ast.stmt))
+    def simple(n): return not hasattr(n, "body") and n.lineno == n.end_lineno and per_line[n.lineno] == 1 and "#" not in lines[n.lineno - 1] and not lines[n.lineno - 1].rstrip().endswith("\\")
+    def walk(body):
+        nonlocal k
+        for a, b in zip(body, body[1:]):
+            if (isinstance(a, ast.Expr) and not isinstance(a.value, (ast.Constant, ast.Yield, ast.YieldFrom, ast.Await)) and simple(a) and simple(b) and not isinstance(b, (ast.Import, ast.ImportFrom, ast.Global, ast.Nonlocal))
+                    and b.lineno > a.lineno and a.col_offset == b.col_offset):
+                la = lines[a.lineno - 1]; ind_ = la[: a.col_offset]; nl = la[len(la.rstrip("\r\n")):]
+                lines[a.lineno - 1] = f"{ind_}vf_d{k} = ({la[a.col_offset:].rstrip().rstrip(';')}){nl}"
+                lb = lines[b.lineno - 1]; lines[b.lineno - 1] = lb[: b.col_offset] + f"vf_d{k}; " + lb[b.col_offset:]; k += 1
+                break
+        for n in body:
+            for f in ("body", "orelse", "finalbody", "handlers"):
+                sub = getattr(n, f, None)
+                if isinstance(sub, list) and sub and isinstance(sub[0], (ast.stmt, ast.ExceptHandler)): walk(sub if isinstance(sub[0], ast.stmt) else [s_ for h in sub for s_ in h.body])
+    walk(tree.body)
+    if not k: return None
+    out = "".join(lines)
+    try: compile(out, "<layout>", "exec")
+    except SyntaxError: return None
+    return out
+
 def backslash_continued(src):
     """break the first long-enough simple assignment / expression line after its first ' = ' or '(' ... conservative: only `x = expr` lines"""
     lines = src.splitlines(keepends=True)
@@ -193,7 +232,7 @@ def backslash_continued(src):
 def form_feed(src):
     return "\x0c\n" + src if not src.startswith("from __future__") else None
 
-CALL_LAYOUTS = {"trailing-comma": trailing_comma, "exploded": exploded_calls, "exploded-comments": exploded_calls_with_comments, "semicolon": semicolon_joined, "backslash": backslash_continued, "formfeed": form_feed}
+CALL_LAYOUTS = {"trailing-comma": trailing_comma, "exploded": exploded_calls, "exploded-comments": exploded_calls_with_comments, "semicolon": semicolon_joined, "backslash": backslash_continued, "formfeed": form_feed, "dataflow": dataflow_chain}
 
 class _Hanging(cst.CSTTransformer):
     """hanging indent: break after the first argument only -> `f(a,\\n    b, c)`; the last line carries the closing parenthesis"""
